@@ -7,6 +7,7 @@ import (
 	"sort"
 	"strconv"
 	"strings"
+	"sync"
 
 	"golang.org/x/tools/go/ssa"
 )
@@ -108,7 +109,7 @@ func newSched(p *Prog, tables map[string]*tabSem) *sched {
 }
 
 func newSState() *sState {
-	return &sState{vals: map[ssa.Value]sVal{}, heap: map[int]interface{}{}, zeros: map[string]bool{}, sign: map[string]uint8{}}
+	return &sState{vals: map[ssa.Value]sVal{}, heap: map[int]interface{}{}, zeros: map[string]bool{}, sign: map[string]uint8{}, ones: map[string]bool{}}
 }
 
 func (e *sched) runFunc(fn *ssa.Function, st *sState, args []sVal) []schedRet {
@@ -116,7 +117,9 @@ func (e *sched) runFunc(fn *ssa.Function, st *sState, args []sVal) []schedRet {
 		st.vals[prm] = args[i]
 	}
 	fr := &sFrame{fn: fn}
+	e.frames = append(e.frames, fn)
 	e.execFrom(fr, []*sState{st}, fn.Blocks[0], nil, nil, false)
+	e.frames = e.frames[:len(e.frames)-1]
 	return fr.rets
 }
 
@@ -173,8 +176,8 @@ func (e *sched) report(r *Report, key, pos string) bool {
 }
 
 func checkC14(c *Ctx, r *Report) {
-	r.Explanation = "Decided, for every scalar: the three scalar-multiplication routines compute the stated integer multiple as a linear form. The routines are evaluated abstractly in the exponent domain (checker/sched.go): scalar bytes are vectors of bit symbols, recoded digits are integer symbols, points are integer-linear forms over {symbol x base point} (Double = times 2, Add = sum, Negate = minus, constant-time table selection = linear combination of the table entries at the index bits after checking that the table is linear in them, package-level tables carry the exponents verified entry by entry against the curve); loops with concrete bounds are followed, the byte loop of ScalarMult over a scalar of any length is settled by an inductive Horner step, the data-dependent branches of the verification routine are forked and joined at the post-dominator where forms that differ by symbols known to be zero agree. Obligations: SCHEDULE (result form = sum 2^i k_i G, resp. 256-ary Horner step, resp. sum 2^i g_i G + sum 2^i d_i P), TABLE-SEMANTICS. Relies on (decided elsewhere): Add/Double/Negate compute the group law (C15), field arithmetic (C16). Assumed, not decided: MultiSelect selects entry index-1 and keeps the receiver for index 0; DecomposeNAF's recoding contract (C20's undecided clause). Special points (P = G, -G, small multiples) need no case split because the addition law is complete (C15)."
-	r.Trusted = []string{"go/ssa", "own curve arithmetic (math/big) for the table exponents", "completeness of the addition law (C15)", "selection semantics of (*SM2Element).MultiSelect", "DecomposeNAF recoding contract: digits zero or odd, sum d_i 2^i = scalar"}
+	r.Explanation = "Decided, for every scalar: the three scalar-multiplication routines compute the stated integer multiple as a linear form. The routines are evaluated abstractly in the exponent domain (checker/sched.go): scalar bytes are vectors of bit symbols, recoded digits are integer symbols, points are integer-linear forms over {symbol x base point} (Double = times 2, Add = sum, Negate = minus, constant-time table selection = linear combination of the table entries at the index bits after checking that the table is linear in them, package-level tables carry the exponents verified entry by entry against the curve); loops with concrete bounds are followed, the byte loop of ScalarMult over a scalar of any length is settled by an inductive Horner step, the data-dependent branches of the verification routine are forked and joined at the post-dominator where forms that differ by symbols known to be zero agree. Obligations: SCHEDULE (result form = sum 2^i k_i G, resp. 256-ary Horner step, resp. sum 2^i g_i G + sum 2^i d_i P), TABLE-SEMANTICS. Relies on (decided elsewhere): Add/Double/Negate compute the group law (C15), field arithmetic (C16). SELECT-SEMANTICS: the constant-time selection that the evaluation summarises (multiSelectConditioned / MultiSelect / Select / Cmovznz) is itself evaluated for every index value 0..width of every table width in use with arbitrary table words: result = entry index-1, receiver kept for index 0, Z = one for affine tables. DecomposeNAF's recoding contract (digits zero or odd, weighted sum = scalar) is decided by C20. Special points (P = G, -G, small multiples) need no case split because the addition law is complete (C15)."
+	r.Trusted = []string{"go/ssa", "own curve arithmetic (math/big) for the table exponents", "completeness of the addition law (C15)", "DecomposeNAF recoding contract: digits zero or odd, sum d_i 2^i = scalar (decided by C20)"}
 	p, err := LoadRepo(c.Repo, "amd64")
 	if err != nil {
 		r.Fatalf("%v", err)
@@ -275,6 +278,8 @@ func checkC14(c *Ctx, r *Report) {
 	// T2: [k]P for a scalar of any length
 	c14ScalarMult(r, p, tables)
 	r.Floor("schedules", 7)
+	// the selection primitive the evaluation above summarises
+	c14Select(r, p)
 }
 
 func c14ScalarMult(r *Report, p *Prog, tables map[string]*tabSem) {
@@ -310,9 +315,9 @@ func c14ScalarMult(r *Report, p *Prog, tables map[string]*tabSem) {
 	}
 	var retVal ssa.Value
 	for _, b := range fn.Blocks {
-		if ret, ok := b.Instrs[len(b.Instrs)-1].(*ssa.Return); ok && len(ret.Results) == 2 {
-			if c, isC := ret.Results[1].(*ssa.Const); isC && c.IsNil() {
-				retVal = ret.Results[0]
+		if ret, ok := b.Instrs[len(b.Instrs)-1].(*ssa.Return); ok && len(retVals(ret)) == 2 {
+			if c, isC := retVals(ret)[1].(*ssa.Const); isC && c.IsNil() {
+				retVal = retVals(ret)[0]
 			}
 		}
 	}
@@ -322,6 +327,7 @@ func c14ScalarMult(r *Report, p *Prog, tables map[string]*tabSem) {
 	}
 	mk := func() (*sched, *sState) {
 		e := newSched(p, tables)
+		e.frames = []*ssa.Function{fn}
 		st := newSState()
 		pid := e.newID()
 		st.heap[pid] = &hPoint{form: pform{pfKey("", "P"): big.NewInt(1)}}
@@ -381,6 +387,7 @@ func c14ScalarMult(r *Report, p *Prog, tables map[string]*tabSem) {
 		}
 	}
 	eB := newSched(p, tables)
+	eB.frames = []*ssa.Function{fn}
 	eB.nextID = eA.nextID
 	eB.forced = []bool{true}
 	eB.stopAt = header
@@ -407,6 +414,7 @@ func c14ScalarMult(r *Report, p *Prog, tables map[string]*tabSem) {
 	// run C: exit returns the accumulator
 	sC := sB2.clone()
 	eC := newSched(p, tables)
+	eC.frames = []*ssa.Function{fn}
 	eC.nextID = eB.nextID
 	eC.forced = []bool{false}
 	frC := &sFrame{fn: fn}
@@ -418,4 +426,137 @@ func c14ScalarMult(r *Report, p *Prog, tables map[string]*tabSem) {
 		okC = isP && nilErr && pfEqual(got, gotB)
 	}
 	r.Check(okC, "SCHEDULE", key+" result", pos, "after the last byte the accumulator is returned unchanged with a nil error; by induction the result is [sum 256^(n-1-i) scalar[i]]P for every length n")
+}
+
+// c14Select: SELECT-SEMANTICS. The constant-time table selection that the schedule evaluation summarises is itself
+// evaluated for every index value: the table limbs are arbitrary words, the index is concrete, so every mask is a concrete
+// all-ones / zero word and the result limbs must be exactly the limbs of entry index-1 (index 0: the receiver is kept);
+// for the affine variant Z becomes the constant one.
+func c14Select(r *Report, p *Prog) {
+	fn := p.MustFunc(r, "sm2/internal.(*SM2Point).multiSelectConditioned")
+	if fn == nil {
+		return
+	}
+	pos := p.Pos(fn.Pos())
+	type cfg struct {
+		hasZ  bool
+		width int
+	}
+	cfgs := []cfg{{false, 1}, {false, 15}, {false, 31}, {false, 63}, {false, 127}, {true, 15}}
+	type outc struct {
+		bad  []string
+		runs int
+	}
+	results := make([]outc, len(cfgs))
+	var wg sync.WaitGroup
+	for ci, c := range cfgs {
+		wg.Add(1)
+		go func(ci int, c cfg) {
+			defer wg.Done()
+			defer func() {
+				if x := recover(); x != nil {
+					results[ci].bad = append(results[ci].bad, fmt.Sprintf("analysis panic: %v", x))
+				}
+			}()
+			rows := 2
+			if c.hasZ {
+				rows = 3
+			}
+			coord := []string{"x", "y", "z"}
+			for bits := 0; bits <= c.width; bits++ {
+				e := newSched(p, map[string]*tabSem{})
+				e.globals = map[string]sVal{}
+				st := newSState()
+				word := func(name string) sVal { return sWord{name} }
+				newLimbs := func(prefix string) int {
+					id := e.newID()
+					a := &hArray{elems: make([]sVal, 4)}
+					for l := range a.elems {
+						a.elems[l] = word(fmt.Sprintf("%s[%d]", prefix, l))
+					}
+					st.heap[id] = a
+					return id
+				}
+				newElem := func(prefix string) int { // SM2Element{x [4]uint64}
+					limbs := newLimbs(prefix)
+					id := e.newID()
+					st.heap[id] = &hArray{elems: []sVal{sPtr{limbs, -1}}}
+					return id
+				}
+				// the receiver point q = {x, y, z *SM2Element}
+				qid := e.newID()
+				q := &hArray{elems: make([]sVal, 3)}
+				elemOf := map[string]int{}
+				for f, cn := range coord {
+					eid := newElem("q." + cn)
+					elemOf[cn] = eid
+					q.elems[f] = sPtr{eid, -1}
+				}
+				st.heap[qid] = q
+				// sm2ElementOne
+				oneElem := newElem("one")
+				oneCell := e.newID()
+				st.heap[oneCell] = &hArray{elems: []sVal{sPtr{oneElem, -1}}}
+				e.globals["sm2ElementOne"] = sPtr{oneCell, 0}
+				// the table: rows x width pointers to limb arrays
+				rowsID := e.newID()
+				rowsArr := &hArray{elems: make([]sVal, rows)}
+				for cIdx := 0; cIdx < rows; cIdx++ {
+					rid := e.newID()
+					row := &hArray{elems: make([]sVal, c.width)}
+					for i := 0; i < c.width; i++ {
+						row.elems[i] = sPtr{newLimbs(fmt.Sprintf("T.%s[%d]", coord[cIdx], i)), -1}
+					}
+					st.heap[rid] = row
+					rowsArr.elems[cIdx] = sSlice{rid, 0, c.width}
+				}
+				st.heap[rowsID] = rowsArr
+				cell := e.newID()
+				st.heap[cell] = &hArray{elems: []sVal{sSlice{rowsID, 0, rows}}}
+				rets := e.runFunc(fn, st, []sVal{sPtr{qid, -1}, sPtr{cell, 0}, sBool{c.hasZ}, sInt{big.NewInt(int64(c.width))}, sInt{big.NewInt(int64(bits))}})
+				results[ci].runs++
+				if len(e.errs) > 0 || len(e.panics) > 0 || len(rets) != 1 {
+					results[ci].bad = append(results[ci].bad, fmt.Sprintf("index %d: %s", bits, strings.Join(append(append([]string{}, e.errs...), e.panics...), "; ")+ifs(len(rets) != 1, fmt.Sprintf(" (%d return paths)", len(rets)))))
+					if len(results[ci].bad) > 3 {
+						return
+					}
+					continue
+				}
+				fin := rets[0].st
+				for _, cn := range coord {
+					el := fin.heap[elemOf[cn]].(*hArray)
+					limbs := fin.heap[el.elems[0].(sPtr).id].(*hArray)
+					for l := 0; l < 4; l++ {
+						want := fmt.Sprintf("q.%s[%d]", cn, l)
+						if bits >= 1 {
+							if cn == "z" && !c.hasZ {
+								want = fmt.Sprintf("one[%d]", l)
+							} else {
+								want = fmt.Sprintf("T.%s[%d][%d]", cn, bits-1, l)
+							}
+						}
+						got := fmt.Sprint(limbs.elems[l])
+						if w, ok := limbs.elems[l].(sWord); ok {
+							got = w.name
+						}
+						if got != want && len(results[ci].bad) < 4 {
+							results[ci].bad = append(results[ci].bad, fmt.Sprintf("index %d: %s limb %d is %s, required %s", bits, cn, l, got, want))
+						}
+					}
+				}
+			}
+		}(ci, c)
+	}
+	wg.Wait()
+	for ci, c := range cfgs {
+		name := "MultiSelectXY"
+		if c.hasZ {
+			name = "MultiSelectXYZ"
+		}
+		key := fmt.Sprintf("sm2/internal.(*SM2Point).%s width %d", name, c.width)
+		res := results[ci]
+		r.Count("select_evaluations", res.runs)
+		r.Check(len(res.bad) == 0, "SELECT-SEMANTICS", key, pos, fmt.Sprintf("for each of the %d index values the result is the receiver (index 0) or exactly the limbs of entry index-1 with %s, for arbitrary table words", c.width+1, ifs(c.hasZ, "Z from the table")+ifs(!c.hasZ, "Z = one"))+ifs(len(res.bad) > 0, ": "+strings.Join(res.bad, "; ")))
+	}
+	r.Floor("select_evaluations", 250)
 }
